@@ -134,8 +134,13 @@ def file_api(kind: str, src: str, files: dict | None = None, mapping: str | None
     return fr
 
 
+DUMP_SYMBOLS = {"on": False}      # C12 switches the diagnostic flag on for some runs: it is no input of the assembly
+
+
 def cli_args(fmt: str, mapping: str | None, copier: bool, defines: list[str] | None, out: str, spath: str = "t.s") -> list[str]:
     args = [spath, "-o", out, "-f", fmt]
+    if DUMP_SYMBOLS["on"]:
+        args.append("--dump-symbols")
     if mapping is not None:
         args += ["-m", mapping]
     if copier:
